@@ -301,6 +301,9 @@ def _copy_guard_ok(l):
             return l.truth is False
         if n in ("is_ok", "is_some"):
             return l.truth is True
+        if n in ("eq", "ne") and l.truth is (n == "eq") and any(
+                x[0] == "call" and callee_name(x) in ("digest_bytes", "digest_string") for x in walk(l.term)):
+            return True     # the copy's bytes hash to the item's name (verification of what is copied, C10/C11)
         return False
     if l.kind == "variant":
         pt = peel(l.term)
